@@ -46,7 +46,8 @@ end FDir
 /-- What the exporter reads from `self.model` (a loaded `TemplateModel`). -/
 structure View where
   rate : Rat                  -- model.sample_rate
-  samples : List Int          -- model.spike_samples (spike_times.npy, in samples)
+  samples : List Int          -- model.spike_samples
+  times : List Rat            -- model.spike_times (seconds)
   spikeClusters : List Nat    -- model.spike_clusters
   spikeTemplates : List Nat   -- model.spike_templates
   amplitudes : List Rat       -- model.amplitudes
@@ -67,6 +68,26 @@ def sizesOf (v : View) : Sizes :=
 
 /-- `times = samples / self.sample_rate` (model.py:652): spike times in seconds -/
 def timesOf (rate : Rat) (samples : List Int) : List Rat := samples.map fun (s : Int) => (s : Rat) / rate
+
+/-- `np.round`: to the nearest integer, ties to the even one -/
+def roundHalfEven (q : Rat) : Int :=
+  let f := q.floor
+  let r := q - (f : Rat)
+  if r < 1 / 2 then f else if (1 / 2 : Rat) < r then f + 1 else if f % 2 = 0 then f else f + 1
+
+/-- the two layouts `TemplateModel._load_spike_samples` accepts (model.py:644-662) -/
+inductive SpikeFile where
+  | inSamples (s : List Int)                       -- `spike_times.npy`: in SAMPLES despite its name
+  | inSeconds (t : List Rat) (s : Option (List Int))  -- `spikes.times*.npy` in seconds (+ `spikes.samples*.npy` if any)
+deriving Repr
+
+/-- `_load_spike_samples`: (spike_samples, spike_times).  From samples the times are `samples / rate`; from
+seconds the times are the file's values VERBATIM and the samples, unless stored, are
+`np.round(times * rate).astype(np.uint64)` (non-negative times: a negative product wraps around). -/
+def loadSpikeSamples (rate : Rat) : SpikeFile → List Int × List Rat
+  | .inSamples s => (s, timesOf rate s)
+  | .inSeconds t (some s) => (s, t)
+  | .inSeconds t none => (t.map fun x => roundHalfEven (x * rate), t)
 
 /-- `.astype(np.uint16)` of a non-negative or negative integer: reduction modulo 2^16 -/
 def wrap16 (r : Row) : Row :=
@@ -103,7 +124,7 @@ def clustersDepths (cc : Entry) : List Row := cc.rows.zipIdx.map fun p => Row.to
 table: not in the domain, every id is below `n_clusters`), `model.get_depths()` (one entry per spike,
 `zeros_like(spike_times)`, model.py:1101) with features. -/
 def spikesDepths (v : View) (cd : List Row) : List Row :=
-  if v.features then tokRows "get_depths" (timesOf v.rate v.samples).length
+  if v.features then tokRows "get_depths" v.times.length
   else v.spikeClusters.map fun c => cd.getD c (Row.tok "nan" 0)
 
 structure Cfg where
@@ -136,7 +157,7 @@ def makeChannelObjects (v : View) (out : FDir) : FDir :=
 
 /-- alf.py:239-294 (`n_templates == model.n_templates`, `n_clusters == model.n_clusters` are asserted there) -/
 def makeTemplateAndSpikesObjects (v : View) (out : FDir) : FDir :=
-  let out := out.write ["spikes", "times", "npy"] (fresh ((timesOf v.rate v.samples).map Row.q))
+  let out := out.write ["spikes", "times", "npy"] (fresh (v.times.map Row.q))
   let out := out.write ["spikes", "samples", "npy"] (fresh (v.samples.map Row.z))
   let out := out.write ["spikes", "amps", "npy"] (fresh (spikeAmps v))
   let out := out.write ["templates", "amps", "npy"] (fresh (tokRows "templates.amps" v.nTemplates))
